@@ -343,6 +343,7 @@ pub fn run(ctx: &Ctx) -> i32 {
         check_tape(tape, &g, stats, counting, &cli_budget)
     });
     rep.add(out);
+    crate::fuzzrun::tape_campaign(ctx, &mut rep, "C03", &gates);
     rep.replay_witnesses(&ctx.findings, &|w| witness(w));
     rep.extra.insert("gates_off".into(), json!(off));
     rep.assumptions = vec!["faults whose diagnosis needs another declaration ('undeclared' codes P0012/P0015/P0021/P0022 by construction of the fault) are exempt as the property says; only self-contained fault kinds are planted".into()];
@@ -389,4 +390,11 @@ pub fn replay(ctx: &Ctx, v: &Value) -> i32 {
             1
         }
     }
+}
+
+/// one tape through the in-process oracle (used by the coverage-guided `tapes` fuzz target)
+pub fn fuzz_one(tape: &[u8], gates: &Gates) -> Result<(), Failure> {
+    let mut s = Stats::default();
+    let zero = std::sync::atomic::AtomicI64::new(0);
+    check_tape(tape, gates, &mut s, false, &zero)
 }
